@@ -24,7 +24,14 @@ RULE = ("random loop-free networks on rasters <= 56 cells (quick) / <= 400 (thor
         "for a quarter of the networks, order_cells('walk') (the op reports whether the order is sorted by the distance to "
         "the pit, the hypothesis of theorem area_size); upa_min None/0/a value of the "
         "field; depths 1..3; index dtypes int32/int64/uint32. non-trivial = >= 2 valid cells, >= 1 confluence, "
-        "path length >= 3; distinct = SHA-1 of (op, network, parameters). thorough: additionally 700 networks in a "
+        "path length >= 3; distinct = SHA-1 of (op, network, parameters). Pfafstetter additionally on 10 (quick) / 100 "
+        "(thorough) 'long combs' (x escalation): one main stem of 104..130 cells with more than 100 direct tributaries "
+        "of 1 cell, a few of 2-3 cells (chains/forks; one, two or three tied area levels, spread over the stem or "
+        "clustered at its head/foot so that an inter-basin stem of level 2 or 3 again has > 100 tied tributaries), "
+        "260..650 cells numbered as a 2..5 x N raster (stem along a row, either direction) or shuffled; upstream area "
+        "= cell counts (default / explicit), one area for all cells, or random cell areas; judged like every other "
+        "network (certificates on the implementation's output, which hold for every tie order; model equality when "
+        "untied). thorough: additionally 700 networks (+ 35 long combs) in a "
         "child process with Numba compilation enabled (same generators and judges)")
 JIT = os.environ.get("PF_JIT", "0") == "1"
 SCALE = 4  # areas are multiples of 1/4: exact in float64, sent to the model as integers
@@ -149,6 +156,84 @@ def gen_star(rng, max_cells):
     return ds, (nrow, ncol), A
 
 
+def gen_longcomb(rng):
+    """long comb: ONE main stem of 104..130 cells below a pit with more than 100 direct tributaries -
+    every stem cell (but a short tail at the head and 0-2 gaps) carries a small tributary, some a
+    second one. Tributary sizes are tied: all 1 ('flat'), or two / three levels (a few tributaries
+    of 2 / 3 cells - chains or forks - among the single cells), so that the 'four largest' are, as
+    a rule, not determined (tie between the 4th and the 5th largest). The larger tributaries are
+    spread over the stem or clustered in a short window at its head / its foot: then an inter-basin
+    stem of the next Pfafstetter level again has more than 100 (tied) tributaries.
+    Cell numbering: column = stem position, row = slot (a 2..5 x N raster with the stem along one
+    row, flowing west or east, tributaries across; chains are true D8 links) or a random relabelling.
+    Returns (ds, shape, info)."""
+    place = rng.choice(["spread", "spread", "head", "foot"])
+    S = rng.randint(104, 130) if place == "spread" else rng.randint(118, 130)
+    tail = rng.choice([0, 0, 1, 2, 3])
+    bearing = list(range(S - tail))          # stem positions (0 = pit) with a tributary
+    for _ in range(rng.randint(0, 2)):
+        if len(bearing) > 102:
+            bearing.remove(rng.choice(bearing))
+    mode = rng.choice(["flat", "two", "three", "three"])
+    if mode == "flat":
+        bigs = []
+    elif mode == "two":
+        bigs = [rng.choice([2, 3])] * rng.randint(1, 8)
+    else:
+        bigs = [3] * rng.randint(0, 5) + [2] * rng.randint(1, 6)
+    size = {k: 1 for k in bearing}
+    if place == "spread":
+        where = rng.sample(bearing, len(bigs))
+    else:
+        w = len(bearing) - 102              # >= 12: the rest of the stem keeps more than 100 tributaries
+        window = bearing[-w:] if place == "head" else bearing[:w]
+        u = rng.random()
+        if u < 0.3:       # the four largest are determined: the tie is met on an inter-basin stem at the 2nd level
+            mode, bigs = "four", rng.choice([[2] * 4, [3] * 4, [3, 3, 2, 2], [3, 2, 2, 2]])
+        elif u < 0.6:     # ... determined at two levels: four of 3 cells at the end, four of 2 cells next to them
+            mode, bigs = "nested", [3] * 4 + [2] * 4
+        if mode == "nested":
+            outer, inner = (window[w // 2:], window[:w // 2]) if place == "head" else (window[:w // 2], window[w // 2:])
+            where = rng.sample(outer, 4) + rng.sample(inner, 4)
+        else:
+            where = rng.sample(window, len(bigs))
+    for k, b in zip(where, bigs):
+        size[k] = b
+    second = set(rng.sample(bearing, rng.randint(1, 60))) if rng.random() < 0.3 else set()
+    up_rows = max(size.values())
+    r0 = up_rows                                # row of the stem
+    nrow = up_rows + 1 + (1 if second else 0)
+    cells = {}                                  # (row, col) -> downstream (row, col)
+    for k in range(S):
+        cells[(r0, k)] = (r0, k - 1) if k > 0 else (r0, 0)
+    for k, b in size.items():
+        cells[(r0 - 1, k)] = (r0, k)
+        fork = b == 3 and rng.random() < 0.4
+        for j in range(2, b + 1):
+            cells[(r0 - j, k)] = (r0 - 1, k) if fork else (r0 - j + 1, k)
+    for k in second:
+        cells[(r0 + 1, k)] = (r0, k)
+    flip_r, flip_c = rng.random() < 0.5, rng.random() < 0.5
+    n = nrow * S
+    perm = None
+    if rng.random() < 0.35:
+        perm = list(range(n))
+        rng.shuffle(perm)
+
+    def cid(rc):
+        r, c = rc
+        i = (nrow - 1 - r if flip_r else r) * S + (S - 1 - c if flip_c else c)
+        return i if perm is None else perm[i]
+
+    ds = [n] * n
+    for rc, to in cells.items():
+        ds[cid(rc)] = cid(to)
+    shape = (nrow, S) if rng.random() < 0.8 else (S, nrow)       # the latter: same links, other raster shape
+    info = {"mode": mode, "place": place, "ntrib": len(size) + len(second),
+            "numbering": "raster" if perm is None else "shuffled"}
+    return ds, shape, info
+
+
 def gen_net(rng, max_cells):
     u = rng.random()
     if u < 0.12:
@@ -238,6 +323,27 @@ def run(ctx):
         if rng.random() < 0.25:
             _kernels(ctx, rng, env)
         if len(ctx.cases) > 300:
+            ctx.flush()
+    # long combs (a main stem with more than 100 tributaries): Pfafstetter only
+    nlong = 700 // 20 if getattr(ctx, "jit_worker", False) else (10 if ctx.tier == "quick" else 100) * ctx.escalate
+    for k in range(nlong):
+        ds, shape, info = gen_longcomb(rng)
+        n = len(ds)
+        ctx.count("family:longcomb")
+        ctx.count("longcomb:%s/%s/%s" % (info["mode"], info["place"], info["numbering"]))
+        dt = rng.choice([np.int32, np.int32, np.int64, np.uint32])
+        flw = mk_raster(ds, shape, dtype=dt)
+        order = "sort"
+        if rng.random() < 0.25:
+            flw.order_cells(method="walk")
+            order = "walk"
+        ctx.count("order:" + order)
+        seq = canon_idx(flw.idxs_seq, n)
+        base = {"ds": ds, "shape": list(shape), "dtype": np.dtype(dt).name, "jit": JIT, "order": order}
+        env = {"flw": flw, "ds": ds, "n": n, "seq": seq, "shape": shape, "base": base, "nontriv": True,
+               "hint": None, "longcomb": info}
+        _pfaf(ctx, rng, env)
+        if len(ctx.cases) > 40:
             ctx.flush()
 
 
@@ -419,8 +525,22 @@ def _area(ctx, rng, env):
 # ------------------------------------------------------------------------------------------
 def _pfaf(ctx, rng, env):
     flw, ds, n, seq, shape = env["flw"], env["ds"], env["n"], env["seq"], env["shape"]
-    kind, area, up = gen_area_field(rng, ds)
-    default = kind == "count" and rng.random() < 0.4
+    long = env.get("longcomb")
+    if long is None:
+        kind, area, up = gen_area_field(rng, ds)
+        default = kind == "count" and rng.random() < 0.4
+    else:
+        # long combs: fields that keep the ties between the tributaries (cell counts, one area for every cell);
+        # sometimes random cell areas (few ties: the model comparison on a stem with > 100 tributaries)
+        u = rng.random()
+        if u < 0.65:
+            kind, area = "count", [SCALE] * n
+        elif u < 0.85:
+            kind, area = "weighted", [rng.randint(1, 7)] * n
+        else:
+            kind, area = "weighted", [rng.randint(1, 40) for _ in range(n)]
+        up = [v if ds[i] != n else -9999 * SCALE for i, v in enumerate(accumulate(ds, area))]
+        default = kind == "count" and rng.random() < 0.5
     if default:
         up_arg = None
         up = [v * SCALE for v in ints(flw.upstream_area())]
@@ -428,7 +548,10 @@ def _pfaf(ctx, rng, env):
         up_arg = to_float(up).reshape(shape)
     vals = sorted({up[i] for i in range(n) if ds[i] != n})
     u = rng.random()
-    if u < 0.25:
+    if long is not None and u >= 0.4 and rng.random() < 0.8:
+        upa_min = vals[0]       # the smallest area: nothing masked (a larger one masks the single-cell tributaries)
+        kw = {"upa_min": upa_min / SCALE}
+    elif u < 0.25:
         upa_min, kw = 0, {}
     elif u < 0.4:
         upa_min, kw = None, {"upa_min": None}
@@ -447,8 +570,22 @@ def _pfaf(ctx, rng, env):
     ctx.count("pfaf:outlets(depth3)", len(res[2][1]))
     ctx.count("pfaf:distinct-codes(depth3)", len(set(res[2][0]) - {0}))
     ctx.count("pfaf:maxdigit=%d" % max([int(c) for l in res[0][0] for c in str(l)] or [0]))
+    if long is not None:
+        # coverage of the family, from the arrays the implementation used: direct tributaries of the main stem of
+        # the (single) pit and whether the 4th and 5th largest of them tie
+        stem, on = [pits[0]], {pits[0]}
+        while usmain[stem[-1]] != n and usmain[stem[-1]] not in on:
+            stem.append(usmain[stem[-1]])
+            on.add(stem[-1])
+        tr = sorted((up[i] for i in range(n) if ds[i] != n and i not in on and ds[i] in on), reverse=True)
+        big = upa_min is None or all(v >= upa_min for v in tr)
+        ctx.count("longcomb:stem-tributaries>100=%d" % (len(tr) > 100 and big))
+        ctx.count("longcomb:tie-4th/5th-largest=%d" % (len(tr) > 4 and tr[3] == tr[4]))
+        ctx.count("longcomb:tributary-area-levels=%d" % min(4, len(set(tr))))
     desc = {"op": "subbasins_pfafstetter", **env["base"], "uparea_x4": None if default else up,
             "upa_min_x4": upa_min, "field": kind, "depths": [1, 2, 3]}
+    if long is not None:
+        desc["longcomb"] = long
     reqs = []
     for d, (il, io, _) in zip((1, 2, 3), res):
         reqs.append(("c18_pfaf", {"ds": ds, "seq": seq, "pits": pits, "usmain": usmain, "uparea": up,
